@@ -124,8 +124,15 @@ Extend(q, W, k, env, bs) ==
   ELSE LET c == SlotVals(q, W, k, env)
        IN FlattenSeqs([i \in 1..Len(c) |-> Extend(q, W, k + 1, Append(env, c[i]), bs)])
 
+\* predicate-form terms T(From(d), f = e, ...): one equality per given field (C13)
+VarFields(v) == IF "fields" \in DOMAIN v THEN v.fields ELSE <<>>
+FieldsHold(q, env, W) ==
+  \A i \in 1..NVars(q) : \A j \in 1..Len(VarFields(q.vars[i])) :
+     LET fc == VarFields(q.vars[i])[j]
+     IN i \in BoundSet(q) \/ PyEq(W.objs[env[i].v].f[fc.f], Val(fc.e, env, q, W))
+
 EnvSeq(q, W) == Extend(q, W, 1, <<>>, BoundSet(q))
-SatSeq(q, W) == SelectSeq(EnvSeq(q, W), LAMBDA env : Holds(q.cond, env, q, W))
+SatSeq(q, W) == SelectSeq(EnvSeq(q, W), LAMBDA env : Holds(q.cond, env, q, W) /\ FieldsHold(q, env, W))
 RowOf(q, W, env) == [k \in 1..Len(q.sel) |-> Val(q.sel[k], env, q, W)]
 \* the rows of the query, one per satisfying assignment, in domain order
 RowSeq(q, W) == LET s == SatSeq(q, W) IN [i \in 1..Len(s) |-> RowOf(q, W, s[i])]
